@@ -740,4 +740,4 @@ func allClaimedPatterns(verif string) []string {
 
 
 var logicalKind = map[string]bool{"inv-entry": true, "inv-preserve": true, "pre@call": true, "post": true, "frame": true,
-	"hint": true, "bridge": true, "variant": true, "bind": true}
+	"hint": true, "bridge": true, "variant": true, "bind": true, "assert": true}
